@@ -130,12 +130,12 @@ pub fn build(a: &LensArgs) -> LensCfg {
         // Automatic collections on (Cc::new may collect)
         "auto" => {
             cfg.name = "auto";
-            cfg.codes = codes(CORE) | codes(&[SetAuto, SetBufThr]);
+            cfg.codes = codes(CORE) | codes(&[SetAuto, SetBufThr, NewOwning]);
             cfg.auto_lens = true;
         },
         "autofin" => {
             cfg.name = "autofin";
-            cfg.codes = codes(CORE) | codes(&[SetAuto, TakeG, DropG, PutG, SetFin, SetDrop]);
+            cfg.codes = codes(CORE) | codes(&[SetAuto, TakeG, DropG, PutG, SetFin, SetDrop, NewOwning]);
             cfg.fin_menu = a.fin_menu.clone().unwrap_or_else(|| vec![0, 7, 8, 9]);
             cfg.drop_menu = a.drop_menu.clone().unwrap_or_else(|| vec![0, 2]);
             cfg.auto_lens = true;
